@@ -78,6 +78,17 @@ def cases(tier, rnd):
         for o in (89, 93, 97):          # time fields at the edges of what datetime.time accepts
             for secs in (86399, 86400, 2 ** 31 - 1, 2 ** 32 - 1):
                 b = bytearray(valid); b[o:o + 4] = secs.to_bytes(4, "little"); cs.append(with_replies(rnd, kind, [login, bytes(b)]))
+    # replies that look like REAL frames of the protocol at the wrong place: the state reply of another device kind (with the header a device
+    # puts in front: magic, its own length, kind and command bytes) as answer to a state query, a command, a login
+    def framed(body, kindbytes):
+        b = bytearray(body); b[0:2] = b"\xfe\xf0"; b[2:4] = len(b).to_bytes(2, "little"); b[4:6] = kindbytes; b[6:8] = b"\x01\x03"; return bytes(b)
+    looks = [framed(world.thermostat_reply(rnd), b"\x04\x00"), framed(world.shutter_reply(rnd), b"\x04\x02"), framed(world.type1_state_reply(rnd), b"\x02\x32"),
+             framed(world.rand_bytes(rnd, 100), b"\x04\x02"), framed(world.rand_bytes(rnd, 1024), b"\x04\x00")]
+    for kind in range(1, 13):
+        for look in looks:
+            c = with_replies(rnd, kind, [world.login_reply(rnd), look])
+            if len(c["replies"]) >= 2: cs.append(c)
+            c = with_replies(rnd, kind, [look, look]); cs.append(c)
     for kind in range(1, 13):
         for _ in range(6 if tier == "quick" else 100):
             c = world.rand_op_case(rnd, kind, accepted_args=True); r = [bytes.fromhex(x) for x in c["replies"]]
